@@ -2,11 +2,13 @@
 
 Proof step (Props/C08.v) + correspondence (random and table-driven definition sets, every definition carrying a
 unique marker; Model/Defs.v's verdict and placement vs the real compiler's) + marker counting on the real output
-as the direct oracle / search.
+as the direct oracle / search.  (misc triage) Declaration sequences over the kinds function / saved decorated
+function / template against Model/DeclNames.v; decorated functions declared inside function bodies of classes.
 """
 from __future__ import annotations
 
 import json
+import os
 import re
 from pathlib import Path
 
@@ -15,6 +17,28 @@ from lib import (Check, COMMON_TRUSTED, VERIF, compile_batch, coq_bool, coq_list
 
 PROP = "C08"
 OPTRACE = VERIF / "harness" / "optrace.py"
+# entries proposed for known_findings.json: genuine defects of the live tree whose fix is delivered in /verif/fixes but not committed
+# yet.  The integrator deletes an entry when he commits its patch; from then on a regression is a VIOLATION.
+PROPOSED_FILES = ["reports/misc-known-findings-4.json"]
+
+
+def known_entries() -> dict:
+    """{id: entry} of known_findings.json for C08 plus the proposed entries (skipped with VERIF_NO_PROPOSED=1 = the state after
+    the merge).  Nothing is written at run time."""
+    out = {f["id"]: f for f in known_for(PROP)}
+    if not os.environ.get("VERIF_NO_PROPOSED"):
+        for rel in PROPOSED_FILES:
+            f = VERIF / rel
+            if not f.exists():
+                continue
+            try:
+                entries = json.loads(f.read_text()).get("findings", [])
+            except ValueError:
+                continue
+            for e in entries:
+                if e.get("property") == PROP and e.get("id"):
+                    out.setdefault(e["id"], e)
+    return out
 CERT = "LOAD=__load__\nTICK=__tick__\nPRIVATE=__private__\nVAR=__variable__\nINT=__int__\nSTORAGE=__storage__"
 
 # ------------------------------------------------------------------ definition trees
@@ -74,7 +98,8 @@ def render(items, indent="") -> str:
             if body == "empty" and not inner and not calls:
                 out.append(f"{indent}{deco}function {it[1]}() {{}}")
             else:
-                out.append(f"{indent}{deco}function {it[1]}() {{\n{first}{calls}{inner}{indent}}}")
+                out.append(f"{indent}{deco}function {it[1]}() {{\n{first}{inner}{calls}{indent}}}" if opts.get("decl_first") else
+                           f"{indent}{deco}function {it[1]}() {{\n{first}{calls}{inner}{indent}}}")
         elif k == "class":
             out.append(f"{indent}class {it[1]} {{\n{render(it[2], indent + '    ')}{indent}}}")
         elif k == "lazy":
@@ -98,7 +123,10 @@ def render(items, indent="") -> str:
 def item_term(it, locfolder="predicate") -> str:
     k = it[0]
     if k == "func":
-        return f"IFunc {coq_str(it[1])} {it[2]} {coq_list(item_term(x, locfolder) for x in it[3])}"
+        t = f"IFunc {coq_str(it[1])} {it[2]} {coq_list(item_term(x, locfolder) for x in it[3])}"
+        # (pin_nested) on a tree without fixes/C08-decorated-nested-function-loses-class-prefix.patch a decorated function declared in a
+        # function body is parsed with the EMPTY prefix (and so is everything declared inside it): IAt "" [...]
+        return f'IAt "" [{t}]' if func_opts(it).get("noprefix") else t
     if k == "class":
         return f"IClass {coq_str(it[1])} {coq_list(item_term(x, locfolder) for x in it[2])}"
     if k == "new":
@@ -199,9 +227,9 @@ class TreeGen:
                 inner = inner or [("func", r.choice(["inner", "foo", "q"]), self.next_mk(), [])]
             else:
                 inner = []
-            # (a decorated function declared inside a function body is parsed without the class prefix, like `new`: outside the model)
-            return ("func", r.choice(EMPTY_PREFIXES) + f"E{mk}", mk, inner, [], dict(body=style, deco=None if nested else r.choice(DECOS)))
-        if x < 0.30 and not nested:
+            # (misc triage 4c) also when declared inside a function body: documented placement = with the class prefix, like a plain one
+            return ("func", r.choice(EMPTY_PREFIXES) + f"E{mk}", mk, inner, [], dict(body=style, deco=r.choice(DECOS)))
+        if x < (0.45 if nested else 0.30):
             return ("func", name, mk, inner, [], dict(body="marker", deco=r.choice(DECOS[2:])))
         return ("func", name, mk, inner)
 
@@ -223,6 +251,39 @@ class TreeGen:
                 seen.add(it[1])
             out.append(it)
         return out
+
+
+def eff_classes(it, classes):
+    """class context of a function item: [] for a function marked by pin_nested (parsed without the class prefix)"""
+    return [] if func_opts(it).get("noprefix") else classes
+
+
+def pin_nested(prog):
+    """-> (tree, marked): the tree as a compiler WITHOUT fixes/C08-decorated-nested-function-loses-class-prefix.patch places it: a decorated
+    function (also @lazy / @if) declared inside a function body is parsed with the empty prefix; `marked` = their documented paths"""
+    marked = []
+
+    def walk(items, classes, in_func):
+        out = []
+        for it in items:
+            if it[0] == "func":
+                opts = dict(func_opts(it))
+                cl = classes
+                if in_func and classes and opts.get("deco"):
+                    opts["noprefix"] = True
+                    marked.append(py_path(".".join(classes + [it[1]])))
+                    cl = []
+                out.append(("func", it[1], it[2], walk(it[3], cl, True), list(it[4]) if len(it) > 4 else []) + ((opts,) if opts else ()))
+            elif it[0] == "class":
+                out.append(("class", it[1], walk(it[2], classes + [it[1]], in_func)))
+            elif it[0] == "lazy":
+                if in_func and classes:
+                    marked.append(py_path(".".join(classes + [it[1]])))
+                out.append(it)
+            else:
+                out.append(it)
+        return out
+    return walk(prog, [], False), marked
 
 
 def py_path(name):
@@ -319,7 +380,7 @@ class LazyView:
         for it in items:
             if it[0] == "func":
                 calls = it[4] if len(it) > 4 else []
-                out.append(("func", it[1], it[2], self.at_items(calls, classes) + self.model(it[3], classes)))
+                out.append(("func", it[1], it[2], self.at_items(calls, classes) + self.model(it[3], classes)) + (([], func_opts(it)) if func_opts(it) else ()))
             elif it[0] == "class":
                 out.append(("class", it[1], self.model(it[2], classes + [it[1]])))
             elif it[0] == "lazy":
@@ -468,9 +529,10 @@ def expected_calls(prog, cfg):
         for it in items:
             if it[0] == "func":
                 calls = it[4] if len(it) > 4 else []
+                cl = eff_classes(it, classes)
                 if calls:
-                    exp[it[2]] = lines_of_calls(calls, classes)
-                walk(it[3], classes)
+                    exp[it[2]] = lines_of_calls(calls, cl)
+                walk(it[3], cl)
             elif it[0] == "load":
                 if it[2]:
                     exp[it[1]] = lines_of_calls(it[2], classes)
@@ -506,9 +568,10 @@ def expected_files(prog, cfg, types):
             if it[0] == "load":
                 continue
             if it[0] == "func":
-                if PLAIN.match(it[1]) and all(PLAIN.match(c) for c in classes) and not it[1].startswith("this."):
-                    exp[it[2]] = place(py_path(".".join(classes + [it[1]])), ff + "/", ".mcfunction")
-                walk(it[3], classes, True)
+                cl = eff_classes(it, classes)
+                if PLAIN.match(it[1]) and all(PLAIN.match(c) for c in cl) and not it[1].startswith("this."):
+                    exp[it[2]] = place(py_path(".".join(cl + [it[1]])), ff + "/", ".mcfunction")
+                walk(it[3], cl, True)
             elif it[0] == "class":
                 walk(it[2], classes + [it[1]], in_func)
             elif it[0] == "new":
@@ -553,16 +616,17 @@ def uses_with(items) -> bool:
     return False
 
 
-def documented_functions(prog):
+def documented_functions(prog, with_classes=False):
     """[(marker, documented path, opts)] of the function definitions with plain names (independent of the Coq model)"""
     out = []
 
     def walk(items, classes):
         for it in items:
             if it[0] == "func":
-                if PLAIN.match(it[1]) and all(PLAIN.match(c) for c in classes) and not it[1].startswith("this."):
-                    out.append((it[2], py_path(".".join(classes + [it[1]])), func_opts(it)))
-                walk(it[3], classes)
+                cl = eff_classes(it, classes)
+                if PLAIN.match(it[1]) and all(PLAIN.match(c) for c in cl) and not it[1].startswith("this."):
+                    out.append((it[2], py_path(".".join(cl + [it[1]])), func_opts(it)) + ((list(cl),) if with_classes else ()))
+                walk(it[3], cl)
             elif it[0] == "class":
                 walk(it[2], classes + [it[1]])
     walk(prog, [])
@@ -606,12 +670,14 @@ def reference_failures(prog, cfg, res):
             if pth in seen:
                 fails.append(dict(kind="equal-paths-both-accepted", path=pth, markers=[mark(seen[pth]), mark(mk)]))
             seen[pth] = mk
-    for mk, pth, opts in docs:
+    for mk, pth, opts, cl in documented_functions(prog, with_classes=True):
         deco = opts.get("deco") or ""
         m = re.fullmatch(r"@add\((.*)\)", deco)
         if not m or not PLAIN.match(m.group(1).replace("__", "x")):
             continue
         target = m.group(1)
+        if target.startswith("this.") and cl:
+            target = ".".join(cl + [target[5:]])          # (`this.` in @add's argument is the class the decorated function is written in)
         n = names_of(cfg)
         tfile = file_of(loc(py_path(target))) if py_path(target) not in (n["LOAD"], n["TICK"]) else file_of(f"{cfg['ns']}:{py_path(target)}")
         want = "function " + loc(pth)
@@ -721,6 +787,23 @@ COLLIDING = [
     ("empty-decorated-twice", [F("t", 1), E("foo", 2, deco="@add(t)"), E("foo", 3, deco="@add(t)")]),
     ("empty-nested-then-same", [E("foo", 1, body="nested", inner=[F("in1", 2)]), F("foo", 3)]),
     ("empty-class-vs-dotted", [C("a", E("b", 1, deco="@root")), F("a.b", 2)]),
+    # ---- (misc triage 4c) DECORATED functions declared inside a function body: top level, class, nested class; documented placement
+    # = with the class prefix, like an undecorated function in the same place; the call @add generates names that path; `this.` in
+    # their body / in @add's argument is the enclosing class
+    ("decorated-nested-in-method", [F("t", 1), C("c", F("x", 2), F("f", 3, [D("deco", 4, "@add(__tick__)"), D("d5", 5, "@add(__load__)"), D("d6", 6, "@add(t)"),
+                                                                          D("d7", 7, "@add(c.x)"), D("p8", 8, "@private"), D("r9", 9, "@root"), F("inner", 10)]))]),
+    ("decorated-nested-in-nested-class", [C("a", C("B.k", F("f", 1, [D("deco", 2, "@add(__tick__)"), E("E3", 3, deco="@add(__load__)"), E("E4", 4, deco="@private"),
+                                                                   E("E5", 5, deco="@root", body="comment"), E("E6", 6, deco="@add(a.g)")])), F("g", 7))]),
+    ("decorated-nested-top-level", [F("f", 1, [D("deco", 2, "@add(__tick__)"), E("E3", 3, deco="@private"), D("r4", 4, "@root")]), F("g", 5)]),
+    ("decorated-nested-this", [C("c", F("x", 1), F("f", 2, [("func", "deco", 3, [], ["this.x", ("sched", "this.x"), "c.x"], dict(body="marker", deco="@add(__tick__)")),
+                                                           ("func", "inner", 4, [], ["this.x"]), D("d5", 5, "@add(this.x)")]))]),
+    ("decorated-nested-declares", [C("c", F("f", 1, [("func", "deco", 2, [F("deep", 3), N("predicate", "pp", 4), D("d5", 5, "@add(__tick__)")], [], dict(body="marker", deco="@root"))]),
+                                     F("deep2", 6))]),
+    ("decorated-nested-vs-member", [C("c", F("f", 1, [D("g", 2, "@add(__tick__)")]), F("g", 3))]),
+    ("decorated-nested-vs-toplevel", [C("c", F("f", 1, [D("g", 2, "@add(__tick__)")])), F("g", 3), F("c.h", 4)]),
+    ("decorated-nested-vs-dotted", [C("c", F("f", 1, [D("g", 2, "@root")])), F("c.g", 3)]),
+    ("decorated-nested-twice", [C("c", F("f", 1, [D("g", 2, "@private")]), F("h", 3, [D("g", 4, "@add(__load__)")]))]),
+    ("decorated-nested-two-classes", [C("c", F("f", 1, [D("g", 2, "@add(__tick__)")])), C("d", F("f", 3, [D("g", 4, "@add(__tick__)")]))]),
     # ---- round 2: call sites into an #override namespace two or more levels deep, every call form
     ("override-deep-calls", [C("shared", C("util", ("func", "clear", 1, [], ["this.done", ("sched", "this.done"), ("exec", "this.clear")]), F("done", 2)),
                                ("func", "top", 3, [], ["this.util.clear", ("exec", "shared.util.done")])),
@@ -788,6 +871,10 @@ LAZY_SHAPES = [
     ("if-before-nested-declaration", [F("helper", 1), FC("outer", 2, ["helper", ("ifrun", "helper")], [FC("inner", 3, ["helper"])]),
                                       C("k", F("helper", 4), FC("outer", 5, [("ifrun", "this.helper")], [F("inner", 6), N("predicate", "pp", 7)]),
                                         L("tpl", 8, [("ifrun", "this.helper")], [F("made", 9)]), FC("user", 10, [("lazy", "this.tpl"), "this.helper"]))]),
+    # (misc triage 4c) a @lazy / @if function declared inside a METHOD belongs to the class: `this.lz()` / `c.lz()` expand it
+    ("lazy-declared-in-method", [C("c", F("x", 1), ("func", "f", 2, [L("lz", 3, ["this.x"])], [("lazy", "this.lz"), ("lazy", "c.lz"), "this.x"], dict(body="marker", decl_first=True)))]),
+    ("lazy-declared-in-nested-class-method", [C("c", F("x", 1), C("n", F("x", 4), ("func", "f", 5, [L("lz", 6, ["this.x", ("sched", "this.x")], deco="@if(1)")],
+                                                                                  [("lazy", "this.lz"), ("lazy", "c.n.lz")], dict(body="marker", decl_first=True))))]),
     ("lazy-with-forms", [C("lib", L("tpl", 1, [("with", "this.helper"), ("exec", "this.helper")]), F("helper", 2)), C("game", F("helper", 3), FC("run", 4, [("lazy", "lib.tpl")]))]),
 ]
 
@@ -1115,6 +1202,263 @@ def hardcode_failure(case, res):
     return None
 
 
+# ------------------------------------------------------------------ (misc triage 4a/4b) declaration sequences: Model/DeclNames.v
+# A program = one event per source line:  ("decl", kind, deco, classes, name)  |  ("call", classes, spelling).
+# kind: "plain" | "saved" (@add / @private / @root: a file) | "template" (@lazy / @if: no file, expanded at every call).
+# Declaration i is `<deco>function <name>() { say "Q<i>Q"; }` wrapped in its classes; caller j is `function c<j>() { say "C<j>C"; <callee>(); }`.
+# Documented: two declarations with the same path (lower case, dots to slashes, class prefix) are never both accepted, whatever
+# their kinds; the diagnostic cites the first declaration whose path was declared before; a call resolves to THE declaration of
+# its path (template declared before the call: body expanded; otherwise `function <ns>:<path>`, which must be a written file).
+DS_DECOS = {"plain": [""], "saved": ["@add(__tick__) ", "@add(__load__) ", "@root ", "@private "], "template": ["@lazy ", "@if(1) "]}
+DS_KIND = {"plain": "KPlain", "saved": "KSaved", "template": "KTemplate"}
+# spellings (classes, name) grouped by the path they fold to
+DS_SPELL = {
+    "foo": [([], "foo"), ([], "Foo"), ([], "FOO")],
+    "bar": [([], "bar"), ([], "Bar")],
+    "a/b": [([], "a.b"), ([], "A.B"), (["a"], "b"), (["A"], "B")],
+    "a/c": [(["a"], "c"), ([], "a.C")],
+    "a/b/c": [([], "a.b.c"), (["a"], "b.c"), (["a", "b"], "c"), (["a.b"], "c"), (["A.b"], "C"), (["a", "B"], "c")],
+    "k/m/x_1": [(["K.m"], "x_1"), ([], "k.M.x_1"), (["k", "m"], "X_1")],
+    "a": [([], "a"), ([], "A")],
+}
+
+
+def ds_path(classes, name):
+    if name.startswith("this."):
+        name = name[5:] if classes else name
+    return py_path(".".join(list(classes) + [name]))
+
+
+def ds_event_path(e):
+    if e[0] == "decl":
+        return ds_path(e[3], e[4])
+    return ds_path(e[1], e[2]) if e[2].startswith("this.") else py_path(e[2])       # only `this.` is relative to the caller's class
+
+
+def ds_render(seq) -> str:
+    out = []
+    for i, e in enumerate(seq):
+        if e[0] == "decl":
+            classes, text = e[3], f'{e[2]}function {e[4]}() {{ say "Q{i}Q"; }}'
+        else:
+            classes, text = e[1], f'function c{i}() {{ say "C{i}C"; {e[2]}(); }}'
+        for c in reversed(classes):
+            text = f"class {c} {{ {text} }}"
+        out.append(text)
+    return "\n".join(out) + "\n"
+
+
+def ds_job(seq):
+    return dict(src=ds_render(seq), cert=CERT, pack_format=48, namespace="TEST")
+
+
+def ds_fix_private(seq):
+    """@private may be called from its own class only: a called @private declaration becomes @root unless every caller is in its class"""
+    out = list(seq)
+    for i, e in enumerate(out):
+        if e[0] == "decl" and e[2] == "@private ":
+            pre = ds_path(e[3], "x")[:-1]
+            for c in out:
+                if c[0] == "call" and ds_event_path(c) == ds_event_path(e) and ds_path(c[1], "x")[:-1] != pre:
+                    out[i] = ("decl", e[1], "@root ", e[3], e[4])
+    return out
+
+
+def ds_call_of(rng, path, spell):
+    """a caller of `path`: absolute spelling from the top level / another class, or `this.`-relative from a class with that prefix"""
+    classes, name = spell
+    x = rng.random()
+    if classes and x < 0.4:
+        return ("call", list(classes), "this." + name)
+    dotted = ".".join(list(classes) + [name])
+    return ("call", [] if x < 0.8 else ["other"], dotted)
+
+
+def decl_sequence_cases(rng, tier):
+    seqs = []
+    variants = [(k, d) for k in ("plain", "saved", "template") for d in DS_DECOS[k]]
+    # exhaustive for two declarations: every (kind, decorator) pair in both orders x {same spelling, case-folded spelling,
+    # class-vs-dotted spelling, different path}, each followed by a caller of each path; one caller between the two for variety
+    shapes = [("same", ([], "foo"), ([], "foo")), ("case", ([], "foo"), ([], "Foo")), ("class-dotted", (["a"], "b"), ([], "A.b")),
+              ("different", ([], "foo"), ([], "bar"))]
+    for (k1, d1) in variants:
+        for (k2, d2) in variants:
+            for sname, s1, s2 in shapes:
+                seq = [("decl", k1, d1, s1[0], s1[1]), ("decl", k2, d2, s2[0], s2[1]),
+                       ("call", [], ".".join(s1[0] + [s1[1]])), ("call", [], ".".join(s2[0] + [s2[1]]))]
+                seqs.append((f"pair:{sname}:{d1.strip() or 'plain'}:{d2.strip() or 'plain'}", ds_fix_private(seq)))
+    # callers before / between the declarations (a template is expanded only by calls written after it)
+    for (k1, d1) in variants:
+        for (k2, d2) in [v for v in variants if v[1] in ("", "@lazy ", "@add(__tick__) ")]:
+            seq = [("call", [], "foo"), ("decl", k1, d1, [], "foo"), ("call", [], "Foo"), ("decl", k2, d2, [], "FOO"), ("call", [], "foo")]
+            seqs.append((f"interleaved:{d1.strip() or 'plain'}:{d2.strip() or 'plain'}", ds_fix_private(seq)))
+    # three declarations of one path: which one is cited / which one a call means
+    for ks in [("template", "template", "plain"), ("template", "plain", "template"), ("template", "template", "template"),
+               ("plain", "template", "template"), ("template", "saved", "plain"), ("template", "template", "saved")]:
+        for group in ("a/b", "a/b/c"):
+            sp = DS_SPELL[group]
+            seq = [("decl", k, DS_DECOS[k][0], list(sp[n % len(sp)][0]), sp[n % len(sp)][1]) for n, k in enumerate(ks)]
+            seq.append(ds_call_of(rng, group, sp[0]))
+            seqs.append((f"triple:{group}:{'-'.join(ks)}", ds_fix_private(seq)))
+    n_rand = 150 if tier == "quick" else 1500
+    groups = list(DS_SPELL)
+    for n in range(n_rand):
+        n_decl = rng.randint(2, 5)
+        distinct = rng.random() < 0.45          # (otherwise nearly every sequence has a duplicate)
+        gs = rng.sample(groups, n_decl if distinct else rng.randint(1, 3))
+        seq = []
+        for di in range(n_decl):
+            g = gs[di] if distinct else rng.choice(gs)
+            k = rng.choice(["plain", "saved", "template", "template"])
+            cl, nm = rng.choice(DS_SPELL[g])
+            seq.append(("decl", k, rng.choice(DS_DECOS[k]), list(cl), nm))
+        for _ in range(rng.randint(1, 3)):
+            g = rng.choice(gs)
+            seq.insert(rng.randint(0 if rng.random() < 0.25 else 1, len(seq)), ds_call_of(rng, g, rng.choice(DS_SPELL[g])))
+        seqs.append((f"random:{n}", ds_fix_private(seq)))
+    return [dict(origin="declseq:" + o, seq=sq, job=ds_job(sq)) for o, sq in seqs]
+
+
+def ds_spec(seq, fixed=True):
+    """the documented verdict (fixed=True) / the pinned behaviour (fixed=False: only file-producing declarations are looked up),
+    in plain Python: ("dup", i, path) | ("undef", is_template) | ("ok", {path: i}, [(j, "expand", i) | (j, "file", path)])"""
+    funs, lazy = {}, {}
+    calls = []
+    for i, e in enumerate(seq):
+        p = ds_event_path(e)
+        if e[0] == "decl":
+            if p in funs or (fixed and p in lazy):
+                return ("dup", i, p)
+            (lazy if e[1] == "template" else funs)[p] = i
+        else:
+            calls.append((i, "expand", lazy[p]) if p in lazy else (i, "file", p))
+    for c in calls:
+        if c[1] == "file" and c[2] not in funs:
+            return ("undef", c[2] in lazy)
+    return ("ok", funs, calls)
+
+
+def ds_real(seq, res):
+    """the same shape, read off the real result"""
+    if not res["ok"]:
+        msg = res.get("msg") or ""
+        m = re.search(r"Duplicate function declaration\(([^)]*)\) at line (\d+)", msg)
+        if res["exc"] == "JMCSyntaxException" and m:
+            return ("dup", int(m.group(2)) - 1, m.group(1))
+        if res["exc"] == "JMCValueError" and "was never defined" in msg:
+            return ("undef", False)
+        if res["exc"] == "JMCSyntaxException" and "used before definition" in msg:
+            return ("undef", True)
+        return ("other", res["exc"], msg[:300], bool(res.get("jmc")))
+    funs, calls, extra = {}, [], []
+    for path, content in res["files"].items():
+        m = re.match(r"^VIRTUAL/data/TEST/function/(.*)\.mcfunction$", path)
+        if not m or m.group(1) in ("__load__", "__tick__") or m.group(1).startswith("__private__/"):
+            continue
+        rel, lines = m.group(1), [l for l in content.split("\n") if l]
+        cm = re.fullmatch(r"say C(\d+)C", lines[0]) if lines else None
+        if cm:
+            j = int(cm.group(1))
+            if len(lines) == 2 and re.fullmatch(r"say Q\d+Q", lines[1]):
+                calls.append((j, "expand", int(lines[1][5:-1])))
+            elif len(lines) == 2 and lines[1].startswith("function TEST:"):
+                calls.append((j, "file", lines[1][len("function TEST:"):]))
+            else:
+                calls.append((j, "other", "\n".join(lines[1:])[:200]))
+            if rel.split("/")[-1] != f"c{j}":
+                extra.append(("caller-misplaced", rel))
+            continue
+        marks = re.findall(r"^say Q(\d+)Q$", content, re.M)
+        if len(marks) == 1 and len(lines) == 1:
+            if rel in funs:
+                extra.append(("two-files", rel))
+            funs[rel] = int(marks[0])
+        else:
+            extra.append(("file-content", rel, content[:200]))
+    # the call @add generates
+    for i, e in enumerate(seq):
+        if e[0] == "decl" and e[2].startswith("@add("):
+            tgt = "__tick__" if "tick" in e[2] else "__load__"
+            want = "function TEST:" + ds_event_path(e)
+            if want not in (res["files"].get(f"VIRTUAL/data/TEST/function/{tgt}.mcfunction") or "").split("\n"):
+                extra.append(("add-call-missing", i, want))
+    r = ("ok", funs, sorted(calls))
+    return r + (extra,) if extra else r
+
+
+def ds_known_rule(seq, real):
+    """finding C08-lazy-duplicate-declaration: the first declaration with an already declared path has that path declared before
+    only by templates, and the compiler did not refuse it"""
+    spec, pin = ds_spec(seq, True), ds_spec(seq, False)
+    if spec[0] != "dup" or pin == spec:
+        return False
+    return not (real[0] == "dup" and real[1] <= spec[1])
+
+
+def ds_coq_term(case, fixed, strict) -> str:
+    def ev(e):
+        if e[0] == "decl":
+            return f"SDecl {DS_KIND[e[1]]} {coq_list(coq_str(c) for c in e[3])} {coq_str(e[4])}"
+        return f"SCall {coq_list(coq_str(c) for c in e[1])} {coq_str(e[2])}"
+    real = case["real"]
+    if real[0] == "dup":
+        rt = f"XDup {real[1]} {coq_str(real[2])}"
+    elif real[0] == "undef":
+        rt = f"XUndef {coq_bool(real[1])}"
+    elif real[0] == "ok" and len(real) == 3:
+        files = coq_list(f"({coq_str(p)}, {i})" for p, i in real[1].items())
+        calls = coq_list((f'({j}, "", RExpand {x})' if k == "expand" else f"({j}, {coq_str(x)}, RFile)") for j, k, x in real[2] if k != "other")
+        rt = f"XOk {files} {calls}" if all(k != "other" for _, k, _ in real[2]) else "XOther"
+    else:
+        rt = "XOther"
+    return f"mkDCase {coq_bool(fixed)} {coq_bool(strict)} {coq_list(ev(e) for e in case['seq'])} ({rt})"
+
+
+# declarations the flat model does not have: a template / function declared INSIDE a body of the same path, and the `_` idiom
+# (a template named `_` is deleted from lazy_func by its first call, so it may be declared again; `@if(..) function _()` is an
+# instant call and never stored).  Plain oracle: expected verdict and, when accepted, the exact lines of the named files.
+# (name, source, ("dup", cited path) | ("ok", {function file: [lines]}), the duplicate involves a template only protected by the 4a/4b repair)
+DS_HAND = [
+    ("template-inside-function-of-its-path", 'function foo() { say "P"; @lazy function foo() { say "L"; } }\nfunction m() { foo(); }', ("dup", "foo"), True),
+    ("saved-function-declares-template-of-its-path", '@add(__tick__) function foo() { say "P"; @if(1) function foo() { say "L"; } }\nfunction m() { foo(); }', ("dup", "foo"), True),
+    ("template-declares-function-of-its-path", '@lazy function foo() { say "L"; function foo() { say "P"; } }\nfunction m() { foo(); }', ("dup", "foo"), True),
+    ("template-in-body-vs-later-function", 'function o() { say "O"; @lazy function foo() { say "L"; } }\nfunction foo() { say "P"; }\nfunction m() { foo(); }', ("dup", "foo"), True),
+    ("template-in-method-vs-member", 'class c { function o() { say "O"; @lazy function foo() { say "L"; } this.foo(); } function foo() { say "P"; } }', ("dup", "c/foo"), "both"),
+    ("function-in-body-vs-later-template", 'function o() { say "O"; function foo() { say "P"; } }\n@lazy function foo() { say "L"; }\nfunction m() { foo(); }', ("dup", "foo"), False),
+    ("underscore-redeclared-after-call", 'function m() { @lazy function _() { say "1"; } _(); @lazy function _() { say "2"; } _(); say "end"; }',
+     ("ok", {"m": ["say 1", "say 2", "say end"]}), False),
+    ("underscore-redeclared-after-call-in-class", 'class k { @lazy function _() { say "1"; } function m1() { this._(); } @lazy function _() { say "2"; } function m2() { k._(); } }\n'
+     'function m() { @lazy function _() { say "3"; } _(); }', ("ok", {"k/m1": ["say 1"], "k/m2": ["say 2"], "m": ["say 3"]}), False),
+    ("underscore-twice-without-call", 'function m() { @lazy function _() { say "1"; } @lazy function _() { say "2"; } _(); }', ("dup", "_"), True),
+    ("underscore-instant-calls", 'function m() { say "a"; @if(1) function _() { say "1"; } @if(1) function _() { say "2"; } @if(0) function _() { say "3"; } say "b"; }',
+     ("ok", {"m": ["say a", "say 1", "say 2", "say b"]}), False),
+    ("underscore-function-then-template", 'function _() { say "P"; }\nfunction m() { @lazy function _() { say "1"; } _(); }', ("dup", "_"), False),
+]
+
+
+def ds_hand_failure(expect, res):
+    if expect[0] == "dup":
+        if res["ok"]:
+            return dict(kind="equal-paths-both-accepted", expected=f"Duplicate function declaration({expect[1]})",
+                        actual={k: v for k, v in res["files"].items() if k.endswith(".mcfunction")})
+        m = re.search(r"Duplicate function declaration\(([^)]*)\)", res.get("msg") or "")
+        if not m or m.group(1) != expect[1]:
+            return dict(kind="internal-error" if not res.get("jmc") else "wrong-declaration-cited", expected=f"Duplicate function declaration({expect[1]})",
+                        actual=(res.get("exc"), (res.get("msg") or "")[:300]))
+        return None
+    if not res["ok"]:
+        return dict(kind="distinct-definitions-refused" if res.get("jmc") else "internal-error", expected=expect[1], actual=(res.get("exc"), (res.get("msg") or "")[:300]))
+    for rel, lines in expect[1].items():
+        got = [l for l in (res["files"].get(f"VIRTUAL/data/TEST/function/{rel}.mcfunction") or "<no such file>").split("\n") if l]
+        if got != lines:
+            return dict(kind="definition-lost-or-duplicated", file=rel, expected=lines, actual=got)
+    return None
+
+
+DS_HEADER = ("From Coq Require Import String List.\nFrom JMCV Require Import Model.ResLoc Model.DeclNames Run.C08.\n"
+             "Import ListNotations.\nOpen Scope string_scope.\n")
+
+
 CONFIGS = [
     dict(ns="TEST", pack_format=-1, overrides=[]),
     dict(ns="mypack", pack_format=61, overrides=["minecraft"]),
@@ -1256,8 +1600,59 @@ def case_term(case, consts, flags):
     fx = f'(mkFx {coq_bool(flags["strict"])} {coq_bool(flags["nested"])} {coq_bool(flags["privjson"])} {coq_bool(flags["gendup"])})'
     skip = {mk for mk, (kind, _) in markers_of(case["prog"]).items() if kind == "loadtext"}     # load statements are no definitions
     found = coq_list(f"({mk}, {coq_str(p)})" for mk, p in case["found"] if mk not in skip)
-    return (f'mkCase {d} {fx} {coq_str(cfg["ns"])} {coq_list(item_term(x, cfg["locfolder"]) for x in model_tree(case["prog"]))} '
+    return (f'mkCase {d} {fx} {coq_str(cfg["ns"])} {coq_list(item_term(x, cfg["locfolder"]) for x in model_tree(case.get("mprog", case["prog"])))} '
             f'{coq_bool(res["ok"])} {coq_str(res.get("exc") or "")} {found}')
+
+
+def oracle_failure(prog, cfg, r, found, types):
+    """the direct oracle on one real result, for the tree `prog` as documented: None, or the first failure"""
+    if r["ok"]:
+        cnt = {}
+        for mk, p in found:
+            cnt[mk] = cnt.get(mk, 0) + 1
+        lost = [mk for mk in markers_of(prog) if cnt.get(mk, 0) != 1]
+        if lost:
+            return dict(kind="definition-lost-or-duplicated", markers=[mark(m) for m in lost], counts={mark(m): cnt.get(m, 0) for m in lost})
+        where = dict(found)
+        wrong = {mark(mk): dict(expected=f, actual=where.get(mk)) for mk, f in expected_files(prog, cfg, types).items() if where.get(mk) != f}
+        if wrong and cfg["ns"] not in cfg["overrides"]:
+            return dict(kind="definition-misplaced", where=wrong)
+    elif not r.get("jmc") and r["exc"] != "Timeout":
+        return dict(kind="internal-error", exc=r["exc"], msg=r["msg"][:300], frame=r.get("frame"))
+    else:
+        # (misc triage 4c) "Function '<P>' was never defined" although the program defines P (or P is an unresolved `this.`): the call
+        # site does not point at the definition
+        m = re.search(r"Function '([^']*)' was never defined", r.get("msg") or "") if r["exc"] == "JMCValueError" else None
+        if m:
+            defined = {pth for _, pth, _ in documented_functions(prog)}
+            if m.group(1).startswith("this/") or m.group(1) in defined or (has_lazy(prog) and m.group(1) in LazyView(prog).tpl):
+                return dict(kind="call-site-unresolved", cited=m.group(1), msg=r["msg"][:300],
+                            note="the compile is refused because a call names a path the program does define / an unresolved `this.`")
+        return None
+    cs = call_site_failures(prog, cfg, r)
+    if cs:
+        return dict(kind="call-site-misdirected", sites=cs[:3])
+    rf = reference_failures(prog, cfg, r) + lazy_text_failures(prog, r)
+    if rf:
+        return dict(kind=rf[0]["kind"], failures=rf[:3])
+    return None
+
+
+NESTED_DECO = "C08-decorated-nested-function-loses-class-prefix"
+
+
+def nested_deco_explains(c, types) -> bool:
+    """matching rule of finding C08-decorated-nested-function-loses-class-prefix for a failing case (on a tree the probe shows to lack
+    the repair): the program has a decorated function declared in a function body under >= 1 class, and either every oracle passes
+    when exactly those functions are expected without the class prefix, or the compile is refused with `never defined` citing
+    `this/...` or the documented path of such a function"""
+    pinned, marked = pin_nested(c["prog"])
+    if not marked:
+        return False
+    r, fail = c["res"], c["fail"]
+    if not r["ok"]:
+        return fail["kind"] == "call-site-unresolved" and (fail["cited"].startswith("this/") or fail["cited"] in marked)
+    return oracle_failure(pinned, c["cfg"], r, c["found"], types) is None
 
 
 def main(tier: str) -> int:
@@ -1271,10 +1666,20 @@ def main(tier: str) -> int:
         "@lazy / @if functions: the model has no template store; the harness (LazyView) replaces every call of a lazy function by `IAt <prefix "
         "of the class the lazy function is WRITTEN in> <definitions its body declares>` and the tie checks verdict and placement of the result; "
         "expected call lines of an expansion (`this.` = the lazy function's class) and the number of expansions are plain-Python oracles",
-        "@add/@private/@root at top level and in classes are placed like plain functions (checked: the "
-        "model is given the undecorated item) but a decorated function declared INSIDE a function body is parsed without the class prefix and is "
-        "not generated; the zero-command bodies and call forms of round 2 are judged by plain-Python oracles (file exists, references resolve, "
-        "@add call present, equal paths rejected) in addition to the model's placement; imports, non-ASCII names",
+        "@add/@private/@root at top level, in classes and (misc triage 4c) declared inside function bodies are placed like plain functions "
+        "(checked: the model is given the undecorated item; documented = with the class prefix).  Whether the tree has "
+        "fixes/C08-decorated-nested-function-loses-class-prefix.patch is probed; on a tree without it the model is given `IAt \"\" [item]` for a "
+        "decorated function declared in a method (what that tree does) and the misplacement is reported as a finding (KNOWN-FINDING only while "
+        "the proposals file lists it).  The zero-command bodies and call forms of round 2 are judged by plain-Python oracles (file exists, "
+        "references resolve, @add call present, equal paths rejected) in addition to the model's placement; imports, non-ASCII names",
+        "Model/DeclNames.v (misc triage 4a/4b): hand-written port of the duplicate test of declarations against DataPack.functions / lazy_func "
+        "and of the resolution of a call (template expanded / `function` printed, build()'s never-defined check), on flat sequences of "
+        "declarations and callers; tied by comparing verdict, cited declaration, function files and every call resolution on generated "
+        "sequences (Run/C08.v dcase_code; names -> paths by Model/ResLoc.v convention).  The variant (repaired / pinned) is chosen by one probe "
+        "program; ds_spec (plain Python) is the documented verdict.  Outside that model, plain oracle only (DS_HAND): declarations of the same "
+        "path nested in each other's bodies, the `_` idiom (deleted from lazy_func by its first call; `@if` on `_` = instant call)",
+        "KNOWN-FINDING is printed only for a failing input that matches an entry of known_findings.json or of reports/misc-known-findings-4.json "
+        "(proposed entries, deleted by the integrator when the fix is committed; ignored with VERIF_NO_PROPOSED=1)",
         "user definitions at compiler-generated names (every built-in probe of harness/c07.py x every file it makes the compiler write, two jmc.txt "
         "name sets) and Hardcode.repeat / repeatList-generated definitions are judged by plain-Python oracles only (refused, or marker once and the "
         "generated content kept); the machine-checked counterpart is C08_build_keeps_stored_functions / C08_tick_generated_and_user_coexist on "
@@ -1298,6 +1703,9 @@ def main(tier: str) -> int:
         m = next((re.match(r"VIRTUAL/data/[^/]+/(.*)/zz\.json$", k) for k in (r.get("files") or {}) if k.endswith("/zz.json")), None)
         cfg["locfolder"] = m.group(1) if m else "predicate"
     flags = detect_fixes()
+    # (misc triage 4c) does the tree parse a decorated function declared in a method with the class prefix?
+    pr4 = compile_batch([job_of([C("c", F("f", 1, [D("w", 2, "@root")]))], CONFIGS[0])], chunk=10)[0]
+    deco_prefix = not (pr4["ok"] and any(k.endswith("/functions/w.mcfunction") or k.endswith("/function/w.mcfunction") for k in pr4["files"]))
 
     rng = ck.rng
     cases = []
@@ -1342,6 +1750,8 @@ def main(tier: str) -> int:
     for c, r in zip(cases, results):
         c["res"] = r
         c["found"] = found_markers(c["prog"], r)
+        # the tree handed to Model/Defs.v: on a tree without the 4c repair, decorated functions nested in methods as that tree parses them
+        c["mprog"] = c["prog"] if deco_prefix else pin_nested(c["prog"])[0]
 
     pre = (COQ_HEADER + f"Definition types := {coq_list(coq_str(t) for t in consts['types'])}.\n"
            f"Definition legacy_types := {coq_list(coq_str(t) for t in consts['legacy'])}.\n")
@@ -1366,42 +1776,20 @@ def main(tier: str) -> int:
 
     # ---- the direct oracle: marker counting / internal errors on the real output
     reported = set()
-    listed = {k["id"]: k for k in known_for(PROP)}
+    listed = known_entries()
     verdicts = {}
     failing = []
     n_calls = 0
     for i, c in enumerate(cases):
         r = c["res"]
         verdicts[r["exc"] if not r["ok"] else "ok"] = verdicts.get(r["exc"] if not r["ok"] else "ok", 0) + 1
-        fail = None
-        if r["ok"]:
-            cnt = {}
-            for mk, p in c["found"]:
-                cnt[mk] = cnt.get(mk, 0) + 1
-            lost = [mk for mk in markers_of(c["prog"]) if cnt.get(mk, 0) != 1]
-            if lost:
-                fail = dict(kind="definition-lost-or-duplicated", markers=[mark(m) for m in lost], counts={mark(m): cnt.get(m, 0) for m in lost})
-            else:
-                where = dict(c["found"])
-                wrong = {mark(mk): dict(expected=f, actual=where.get(mk)) for mk, f in expected_files(c["prog"], c["cfg"], consts["types"]).items()
-                         if where.get(mk) != f}
-                if wrong and c["cfg"]["ns"] not in c["cfg"]["overrides"]:
-                    fail = dict(kind="definition-misplaced", where=wrong)
-        elif not r.get("jmc") and r["exc"] != "Timeout":
-            fail = dict(kind="internal-error", exc=r["exc"], msg=r["msg"][:300], frame=r.get("frame"))
-        if fail is None:
-            cs = call_site_failures(c["prog"], c["cfg"], r)
-            n_calls += len(expected_calls(c["prog"], c["cfg"])) if r["ok"] else 0
-            if cs:
-                fail = dict(kind="call-site-misdirected", sites=cs[:3])
-        if fail is None:
-            rf = reference_failures(c["prog"], c["cfg"], r) + lazy_text_failures(c["prog"], r)
-            if rf:
-                fail = dict(kind=rf[0]["kind"], failures=rf[:3])
+        fail = oracle_failure(c["prog"], c["cfg"], r, c["found"], consts["types"])
+        n_calls += len(expected_calls(c["prog"], c["cfg"])) if r["ok"] else 0
         if fail:
             c["fail"] = fail
             failing.append((i, c))
     n_fail = len(failing)
+    n_known, known_nested = 0, set()
     classes = classify_all(failing, consts, flags, pre)
     for i, c in failing:
         fail = c["fail"]
@@ -1410,8 +1798,12 @@ def main(tier: str) -> int:
         if fid is None and fail["kind"] == "call-site-misdirected" and PENDING_IF.search(c["job"]["src"]) and all(
                 len(x["actual"]) < len(x["expected"]) for x in fail["sites"]):
             cls, fid = "pendingif", FINDINGS["pendingif"][0]
+        if fid is None and not deco_prefix and nested_deco_explains(c, consts["types"]):
+            fid = NESTED_DECO
+            known_nested.add(i)
         if fid and fid in listed:
             ck.known(fid, listed[fid]["what"])
+            n_known += 1
             continue
         key = fid or fail["kind"]
         if key in reported:
@@ -1430,6 +1822,8 @@ def main(tier: str) -> int:
     shown = 0
     for i in mism:
         c = cases[i]
+        if i in known_nested and not c["res"]["ok"]:
+            continue          # (a failing input was reported above, as KNOWN-FINDING or VIOLATION: the compile is refused at a `this.` / a call the model does not have)
         if shown >= 3:
             break
         shown += 1
@@ -1487,6 +1881,116 @@ def main(tier: str) -> int:
                                        "generated name (class prefix of the enclosing member); a copy on the path of another definition is refused",
                               actual=hf))
 
+    # ---- (misc triage 4a/4b) declaration sequences against Model/DeclNames.v + the plain oracle ds_spec
+    dcases = decl_sequence_cases(rng, tier)
+    probe = compile_batch([ds_job([("decl", "template", "@lazy ", [], "w"), ("decl", "plain", "", [], "w")])], chunk=10)[0]
+    lazy_fixed = (not probe["ok"]) and "Duplicate function declaration" in (probe.get("msg") or "")
+    dres = compile_batch([d["job"] for d in dcases], chunk=120)
+    d_verdicts, d_known, d_fail = {}, 0, 0
+    for d, r in zip(dcases, dres):
+        d["real"] = ds_real(d["seq"], r)
+        d["spec"] = ds_spec(d["seq"], True)
+        v = d["real"][0] + ("/spec-" + d["spec"][0] if d["real"][0] != d["spec"][0] else "")
+        d_verdicts[v] = d_verdicts.get(v, 0) + 1
+    dfiles = []
+    per_d = 250
+    for fi, start in enumerate(range(0, len(dcases), per_d)):
+        body = (DS_HEADER + "Definition cases := [\n" + ";\n".join(ds_coq_term(d, lazy_fixed, flags["strict"]) for d in dcases[start:start + per_d])
+                + "\n].\nEval vm_compute in dcodes cases.\n")
+        dfiles.append((f"declseq_{fi}.v", body))
+    dcodes = {}
+    for fi, (ok, out) in enumerate(run_coq_files(PROP, dfiles, timeout=900, clean=False)):
+        if not ok:
+            ck.violation(dict(kind="correspondence-file-failed", file=dfiles[fi][0], log=out[-3000:]), no_input=True)
+            continue
+        for j, cd in enumerate(parse_nat_list(out)):
+            dcodes[fi * per_d + j] = cd
+    lazy_entry = listed.get("C08-lazy-duplicate-declaration")
+    for di, (d, r) in enumerate(zip(dcases, dres)):
+        real, spec = d["real"], d["spec"]
+        same = real == spec or (real[0] == "ok" and spec[0] == "ok" and len(real) == 3 and real[1] == spec[1] and real[2] == sorted(spec[2]))
+        if not same:
+            d_fail += 1
+            if not lazy_fixed and lazy_entry and ds_known_rule(d["seq"], real) and dcodes.get(di) == 0:
+                d_known += 1
+                ck.known(lazy_entry["id"], lazy_entry["what"])
+            else:
+                kind = ("internal-error" if real[0] == "other" and not real[3] else
+                        "equal-paths-both-accepted" if spec[0] == "dup" and real[0] != "dup" else
+                        "wrong-declaration-cited" if spec[0] == "dup" else
+                        "distinct-definitions-refused" if real[0] != "ok" and spec[0] == "ok" else
+                        "definition-misplaced-or-call-site-misdirected")
+                key = ("declseq", kind)
+                if key not in reported:
+                    reported.add(key)
+                    ck.violation(dict(kind=kind, program=d["job"]["src"], header=None, namespace="TEST", pack_format=48, origin=d["origin"],
+                                      job=d["job"], seq=d["seq"], candidate_finding="C08-lazy-duplicate-declaration" if ds_known_rule(d["seq"], real) else None,
+                                      expected=dict(text="two declarations with the same documented path are never both accepted, whatever their kinds (function, "
+                                                         "@add/@private/@root function, @lazy/@if template); the diagnostic cites the first declaration whose path was "
+                                                         "declared before; every function file holds exactly its declaration; a call resolves to THE declaration of its path",
+                                                    verdict=spec),
+                                      actual=real))
+        if dcodes.get(di, 0) and ("declseq-corr",) not in reported and (same or lazy_fixed):
+            # (a failing input was reported above when real != spec; on a pinned tree the model must still predict the real behaviour)
+            reported.add(("declseq-corr",))
+            ck.violation(dict(kind="correspondence-differs", what="Model/DeclNames.v (via Run/C08.v dcase_code) and the real compiler disagree",
+                              code=dcodes[di], note="1 verdict; 2 cited declaration / path; 3 function files vs `functions`; 4 call resolution; 5 name conversion",
+                              program=d["job"]["src"], origin=d["origin"], real=real, model_variant="repaired" if lazy_fixed else "pinned"), no_input=True)
+        elif dcodes.get(di, 0) and not same and not lazy_fixed and ("declseq-corr-pinned",) not in reported:
+            reported.add(("declseq-corr-pinned",))
+            ck.violation(dict(kind="correspondence-differs", what="the pinned variant of Model/DeclNames.v does not predict the real behaviour of this failing input",
+                              code=dcodes[di], program=d["job"]["src"], origin=d["origin"], real=real, job=d["job"], seq=d["seq"],
+                              expected=dict(verdict=spec), actual=real))
+    # hand cases the flat model does not have (nested declarations of the same path, the `_` idiom): plain oracle
+    hjobs = [dict(src=src, cert=CERT, pack_format=48, namespace="TEST") for _, src, _, _ in DS_HAND]
+    for (hname, src, expect, needs_repair), job, r in zip(DS_HAND, hjobs, compile_batch(hjobs, chunk=40)):
+        hf = ds_hand_failure(expect, r)
+        if not hf:
+            continue
+        d_fail += 1
+        # (a duplicate only the 4a/4b repair refuses; "both": the template is declared in a METHOD, so the 4c repair is needed as well)
+        missing = [e for e in ((lazy_entry if needs_repair and not lazy_fixed else None), (listed.get(NESTED_DECO) if needs_repair == "both" and not deco_prefix else None)) if e]
+        if missing and hf["kind"] == "equal-paths-both-accepted":
+            d_known += 1
+            ck.known(missing[0]["id"], missing[0]["what"])
+            continue
+        key = ("declhand", hf["kind"])
+        if key not in reported:
+            reported.add(key)
+            ck.violation(dict(kind=hf["kind"], program=src, header=None, namespace="TEST", pack_format=48, origin="declhand:" + hname, job=job,
+                              hand_case=dict(expect=expect), candidate_finding="C08-lazy-duplicate-declaration" if needs_repair else None,
+                              expected=hf["expected"], actual=hf["actual"]))
+    n_fail += d_fail - d_known
+    decl_cov = dict(cases=len(dcases), hand_cases=len(DS_HAND), model_variant="repaired" if lazy_fixed else "pinned (fixes/C08-lazy-duplicate-declaration.patch not in the tree)",
+                    verdicts=d_verdicts, failing=d_fail, known=d_known, disagreements=sum(1 for v in dcodes.values() if v),
+                    with_duplicate_path=sum(1 for d in dcases if d["spec"][0] == "dup"),
+                    duplicate_involving_template=sum(1 for d in dcases if d["spec"][0] == "dup" and ds_spec(d["seq"], False) != d["spec"]),
+                    callers=sum(1 for d in dcases for e in d["seq"] if e[0] == "call"),
+                    expansions_checked=sum(1 for d in dcases if d["real"][0] == "ok" for c in d["real"][2] if c[1] == "expand"))
+
+    nested_cov = dict(under_class=0, top_level=0, add=0, private=0, root=0, zero_command=0, programs=0, accepted_programs=0, lazy_in_method=0)
+
+    def count_nested(items, classes, in_func, acc):
+        for it in items:
+            if it[0] == "func":
+                o = func_opts(it)
+                if in_func and o.get("deco"):
+                    acc.append(1)
+                    nested_cov["under_class" if classes else "top_level"] += 1
+                    nested_cov["add" if o["deco"].startswith("@add") else o["deco"][1:]] += 1
+                    nested_cov["zero_command"] += o.get("body", "marker") != "marker"
+                count_nested(it[3], classes, True, acc)
+            elif it[0] == "class":
+                count_nested(it[2], classes + [it[1]], in_func, acc)
+            elif it[0] == "lazy" and in_func and classes:
+                acc.append(1)
+                nested_cov["lazy_in_method"] += 1
+    for c in cases:
+        acc = []
+        count_nested(c["prog"], [], False, acc)
+        nested_cov["programs"] += bool(acc)
+        nested_cov["accepted_programs"] += bool(acc) and c["res"]["ok"]
+
     def size(items):
         return sum(1 + (size(it[3]) if it[0] in ("func", "lazy") else size(it[2]) if it[0] == "class" else 0) for it in items)
     ck.cov.update(dict(
@@ -1495,11 +1999,13 @@ def main(tier: str) -> int:
         rule="a case = one definition tree x configuration (namespace, pack format, #override set); non-trivial = at least two definitions",
         programs=len(cases), table_cases=sum(1 for c in cases if c["origin"].startswith("table:")), random_cases=n_rand,
         random_decorated_cases=n_rand2, type_sweep_cases=len(set(sweep)), random_lazy_cases=n_lazy,
-        lazy=lazy_coverage(cases), generated_names=gcov, hardcode_generated=dict(cases=len(hcases), verdicts=h_verdicts),
+        lazy=lazy_coverage(cases), generated_names=gcov, declaration_sequences=decl_cov, hardcode_generated=dict(cases=len(hcases), verdicts=h_verdicts),
         zero_command_definitions=sum(1 for c in cases for _, _, o in documented_functions(c["prog"]) if o.get("body", "marker") != "marker"),
         decorated_definitions=sum(1 for c in cases for _, _, o in documented_functions(c["prog"]) if o.get("deco")),
         call_forms={f: sum(1 for c in cases if f'"{f}"' in json.dumps(c["prog"])) for f in ("sched", "exec", "with")},
-        real_verdicts=verdicts, disagreements_checked=len(mism), failing_inputs=n_fail, model_loses=len(model_loses),
+        real_verdicts=verdicts, disagreements_checked=len(mism), failing_inputs=n_fail - n_known, known_finding_inputs=n_known + d_known,
+        model_loses=len(model_loses), nested_decorated=nested_cov,
+        tree_variant=dict(decorated_nested_prefix="repaired" if deco_prefix else "pinned (fixes/C08-decorated-nested-function-loses-class-prefix.patch not in the tree)"),
         repairs_detected=flags, functions_with_checked_call_sites=n_calls,
         samples=[dict(origin=c["origin"], program=c["job"]["src"][:300], verdict=c["res"].get("exc") or "ok") for c in cases[200:203]],
         correspondence="exception class, and for accepted programs the exact (marker, file) multiset, model == real",
@@ -1516,29 +2022,47 @@ def replay(path: str) -> int:
     r = compile_batch([job])[0]
     print("program:\n" + job["src"])
     print("expected:", rep.get("expected"))
+    if rep.get("seq"):
+        seq = [tuple(e) for e in rep["seq"]]
+        real, spec = ds_real(seq, r), ds_spec(seq, True)
+        real = json.loads(json.dumps(real))
+        spec_j = json.loads(json.dumps(spec))
+        same = real == spec_j or (real[0] == "ok" and spec[0] == "ok" and len(real) == 3 and real[1] == spec_j[1] and real[2] == sorted(spec_j[2]))
+        print("documented verdict:", json.dumps(spec))
+        print("actual:", json.dumps(real)[:1500])
+        return 0 if same else 1
+    if rep.get("hand_case"):
+        e = rep["hand_case"]["expect"]
+        f = ds_hand_failure((e[0], e[1]), r)
+        print("actual:", json.dumps(f, indent=1) if f else "as expected")
+        return 1 if f else 0
     if rep.get("gen_case") or rep.get("hardcode_case"):
         f = (generated_name_failure(dict(rep["gen_case"]), r) if rep.get("gen_case")
              else hardcode_failure(dict(rep["hardcode_case"]), r))
         print("actual:", json.dumps(f, indent=1) if f else ("refused with " + r["exc"] if not r["ok"] else "no failure"))
         return 1 if f else 0
-    if not r["ok"]:
-        print("actual: compile fails with", r["exc"], "(diagnostic)" if r.get("jmc") else "(INTERNAL ERROR)")
-        return 0 if r.get("jmc") else 1
     prog = rep.get("prog")
-    found = found_markers(json.loads(json.dumps(prog), object_hook=None), r) if prog else []
-    cnt = {}
-    for mk, p in found:
-        cnt.setdefault(mk, []).append(p)
-    print("actual: marker -> files:", {mark(int(k)): v for k, v in cnt.items()})
-    bad = [mk for mk in markers_of(_tuplify(prog)) if len(cnt.get(mk, [])) != 1] if prog else []
-    more = []
-    if prog:
-        cfg = dict(ns=rep.get("namespace", "TEST"), pack_format=rep.get("pack_format", -1), names=rep.get("names"),
-                   overrides=re.findall(r"#override[ \t]+(\S+)", rep.get("header") or ""))
-        tp = _tuplify(prog)
-        more = call_site_failures(tp, cfg, r) + reference_failures(tp, cfg, r) + lazy_text_failures(tp, r)
-        print("actual: call sites / references:", json.dumps(more[:4], indent=1) if more else "all resolve to the documented files")
-    return 1 if bad or more else 0
+    if not prog:
+        if not r["ok"]:
+            print("actual: compile fails with", r["exc"], "(diagnostic)" if r.get("jmc") else "(INTERNAL ERROR)")
+            return 0 if r.get("jmc") else 1
+        print("actual: compiled; no definition tree in the replay file")
+        return 1
+    tp = _tuplify(prog)
+    cfg = dict(ns=rep.get("namespace", "TEST"), pack_format=rep.get("pack_format", -1), names=rep.get("names"),
+               overrides=re.findall(r"#override[ \t]+(\S+)", rep.get("header") or ""))
+    types = run_py(OPTRACE, {"mode": "lexer_consts"})["types"]
+    if not r["ok"]:
+        print("actual: compile fails with", r["exc"], "(diagnostic)" if r.get("jmc") else "(INTERNAL ERROR)", "\n" + (r.get("msg") or "")[:400])
+    else:
+        cnt = {}
+        for mk, pth in found_markers(tp, r):
+            cnt.setdefault(mk, []).append(pth)
+        print("actual: marker -> files:", {mark(int(k)): v for k, v in cnt.items()})
+    f = oracle_failure(tp, cfg, r, found_markers(tp, r), types)
+    print("actual: oracle:", json.dumps(f, indent=1) if f else "every definition once at its documented file, every call site / reference resolves to it"
+          if r["ok"] else "refused with a diagnostic")
+    return 1 if f else 0
 
 
 def _tuplify(items):
